@@ -705,6 +705,11 @@ impl Rasn {
         tld: ToplevelTypeDefinition,
     ) -> Result<TokenStream, GeneratorError> {
         match tld.ty {
+            ASN1Type::Set(ref set) if set.members.is_empty() => Err(GeneratorError::new(
+                Some(ToplevelDefinition::Type(tld)),
+                "rasn does not support SET types without components!",
+                GeneratorErrorType::Unsupported,
+            )),
             ASN1Type::Sequence(ref seq) | ASN1Type::Set(ref seq) => {
                 let name = self.to_rust_title_case(&tld.name);
                 let extensible = seq
